@@ -16,7 +16,7 @@ Proof. split; reflexivity. Qed.
 
 (* one epoch with validation loss 1 and best nets [7]; after load one epoch with validation loss 5
    overwrote the best nets although 1 was still in the history *)
-Definition s1 : state := mkState K1D [7%Z] 5%Z [(1#1)%Q] [(1#1)%Q] (Some (1#1)%Q) (Some [7%Z]) [] 0 0 [] (mkEnv 0 0 0 0 0).
+Definition s1 : state := mkState K1D [7%Z] 5%Z [(1#1)%Q] [(1#1)%Q] (Some (1#1)%Q) (Some [7%Z]) [] 0 0 [] (mkEnv 0 0 0 0 0 false).
 Definition worse : epoch_data := mkEpoch (5#1)%Q (5#1)%Q [8%Z] 6%Z (1, 1).
 
 Theorem old_resume_best_refuted :
@@ -32,7 +32,7 @@ Qed.
 (* a bundle solver routing its bundle parameter into the equation, with a custom loss: trainable
    before; after the old load the inner wrapper indexed a parameter the outer one no longer passed
    down (IndexError on the next fit) and the loss was the default again *)
-Definition sb : state := mkState KBundle [7%Z] 5%Z [] [] None None [] 2 1 [[0]] (mkEnv 0 0 0 0 0).
+Definition sb : state := mkState KBundle [7%Z] 5%Z [] [] None None [] 2 1 [[0]] (mkEnv 0 0 0 0 0 false).
 
 Theorem old_load_bundle_refuted :
   exists s f l, kind s = KBundle /\ trainable s = true /\ snd (save old_facts s true) = Some f /\ load old_facts f = Some l
